@@ -113,6 +113,23 @@ class PlainName:
         return result  # error handled outside
 
 
+def _attr_names(obj):
+    """
+    Names of the instance attributes of a model object. A finished object of
+    a user class that declares `__slots__` has no `__dict__`.
+    """
+    try:
+        return list(obj.__dict__)
+    except AttributeError:
+        names = []
+        for cls in type(obj).__mro__:
+            slots = getattr(cls, "__slots__", ())
+            if isinstance(slots, str):
+                slots = (slots,)
+            names.extend(s for s in slots if hasattr(obj, s))
+        return names
+
+
 class FQN:
     """
     fully qualified name scope provider
@@ -179,7 +196,7 @@ class FQN:
                             return return_value
                 for attr in [
                     a
-                    for a in parent.__dict__
+                    for a in _attr_names(parent)
                     if not a.startswith("__")
                     and not a.startswith("_tx_")
                     and not callable(getattr(parent, a))
